@@ -177,6 +177,9 @@ func c04Generate(id int, seed uint64, region string, steps int) *c04hist {
 		fmt.Sscanf(region, "boundary:%d", &k)
 		return c04Boundary(id, seed, k)
 	}
+	if strings.HasPrefix(region, "return:") {
+		return c04Return(id, seed)
+	}
 	if strings.HasPrefix(region, "escape:") {
 		var k int
 		fmt.Sscanf(region, "escape:%d", &k)
@@ -523,7 +526,7 @@ func runC04(args []string) error {
 			return err
 		}
 	}
-	nsl, nap, nesc := 0, 0, 0
+	nsl, nap, nesc, ngr, nret := 0, 0, 0, 0, 0
 	for k := range sm.Distribution {
 		if strings.HasPrefix(k, "cell:slice:") {
 			nsl++
@@ -531,9 +534,13 @@ func runC04(args []string) error {
 			nap++
 		} else if strings.HasPrefix(k, "cell:escape:") {
 			nesc++
+		} else if strings.HasPrefix(k, "cell:growth:") {
+			ngr++
+		} else if strings.HasPrefix(k, "cell:return:") {
+			nret++
 		}
 	}
-	sm.Notes = append(sm.Notes, fmt.Sprintf("boundary stream: %d slicing cells (operand x lo x hi x max) and %d append cells (kind x destination) hit, each followed by writes through every possibly aliasing slice and an append; escape stream: %d cells (argument shape x escaping callee, call site executed 3 times in one activation)", nsl, nap, nesc))
+	sm.Notes = append(sm.Notes, fmt.Sprintf("boundary stream: %d slicing cells (operand x lo x hi x max) and %d append cells (kind x destination) hit, each followed by writes through every possibly aliasing slice and an append; escape stream: %d cells (argument shape x escaping callee, call site executed 3 times in one activation); growth grid: %d cells (element type x capacity x number of values x form); return stream: %d cells (returned operand x deferred update)", nsl, nap, nesc, ngr, nret))
 	if len(sm.Samples) == 0 && len(hs) > 0 {
 		sm.Samples = append(sm.Samples, sm.CaseIndex[fmt.Sprint(hs[0].ID)])
 	}
@@ -624,6 +631,8 @@ func c04Plan(tier string, seed uint64) (ids []int, seeds []uint64, regions []str
 	for k := range c04EscapeKinds {
 		mk(fmt.Sprintf("escape:%d", k), 2)
 	}
+	// the return stream: returned operand x deferred update after the return statement
+	mk("return:0", 3)
 	return
 }
 
